@@ -22,32 +22,57 @@ open DW.Names
 
 /-! ### the statement forms of the template -/
 
+/-- literals the template writes into the source -/
+inductive LitV | none | true_ | false_ | int (i : Int) | str (s : S)
+  deriving Repr, DecidableEq, Inhabited
+
+/-- comparison operators of `Condition` (`+` / `!` are the truthiness tests and never printed as operators) -/
+inductive COp | eq | ne | lt | le | gt | ge | is_ | isNot | truthy | falsy
+  deriving Repr, DecidableEq, Inhabited
+
+def COp.text : COp → S
+  | .eq => "==".toList | .ne => "!=".toList | .lt => "<".toList | .le => "<=".toList | .gt => ">".toList
+  | .ge => ">=".toList | .is_ => "is".toList | .isNot => "is not".toList | .truthy => "+".toList | .falsy => "!".toList
+
+/-- binary operators of the template -/
+inductive Op | cmp (c : COp) | or_ | and_ | in_
+  deriving Repr, DecidableEq, Inhabited
+
+def Op.text : Op → S
+  | .cmp c => c.text | .or_ => "or".toList | .and_ => "and".toList | .in_ => "in".toList
+
 inductive Expr
   | name (n : S)                       -- a variable
-  | lit (t : S)                        -- literal text: `repr` of a str / int, `None`, `True`, `False`, `Ellipsis`
+  | lit (v : LitV)                     -- a literal: `None`, `True`, `False`, `repr` of an int / str
   | attr (e : Expr) (a : S)            -- e.a
   | call0 (f : Expr)                   -- f()
   | call1 (f a : Expr)                 -- f(a)
   | call5 (f a b c d e : Expr)         -- f(a,b,c,d,e)
   | pair (a b : Expr)                  -- (a,b)
-  | bin (l : Expr) (op : S) (r : Expr) -- l op r
+  | bin (l : Expr) (op : Op) (r : Expr) -- l op r
   | not_ (e : Expr)                    -- not e
   | paren (e : Expr)                   -- (e)
   | emptyList                          -- []
   deriving Repr, DecidableEq, Inhabited
 
-def Expr.text : Expr → S
+def intRepr (i : Int) : S := if i < 0 then '-' :: dec i.natAbs else dec i.natAbs
+
+def LitV.text (p : Char → Bool) : LitV → S
+  | .none => "None".toList | .true_ => "True".toList | .false_ => "False".toList
+  | .int i => intRepr i | .str s => pyRepr p s
+
+def Expr.text (p : Char → Bool) : Expr → S
   | .name n => n
-  | .lit t => t
-  | .attr e a => e.text ++ '.' :: a
-  | .call0 f => f.text ++ "()".toList
-  | .call1 f a => f.text ++ '(' :: a.text ++ [')']
+  | .lit v => v.text p
+  | .attr e a => e.text p ++ '.' :: a
+  | .call0 f => f.text p ++ "()".toList
+  | .call1 f a => f.text p ++ '(' :: a.text p ++ [')']
   | .call5 f a b c d e =>
-      f.text ++ '(' :: a.text ++ ',' :: b.text ++ ',' :: c.text ++ ',' :: d.text ++ ',' :: e.text ++ [')']
-  | .pair a b => '(' :: a.text ++ ',' :: b.text ++ [')']
-  | .bin l op r => l.text ++ ' ' :: op ++ ' ' :: r.text
-  | .not_ e => "not ".toList ++ e.text
-  | .paren e => '(' :: e.text ++ [')']
+      f.text p ++ '(' :: a.text p ++ ',' :: b.text p ++ ',' :: c.text p ++ ',' :: d.text p ++ ',' :: e.text p ++ [')']
+  | .pair a b => '(' :: a.text p ++ ',' :: b.text p ++ [')']
+  | .bin l op r => l.text p ++ ' ' :: op.text ++ ' ' :: r.text p
+  | .not_ e => "not ".toList ++ e.text p
+  | .paren e => '(' :: e.text p ++ [')']
   | .emptyList => "[]".toList
 
 /-- the variables an expression reads (attribute names and literal text are not variables) -/
@@ -98,12 +123,12 @@ def joinWith (sep : S) : List S → S
   | [x] => x
   | x :: r => x ++ sep ++ joinWith sep r
 
-def Simple.text : Simple → S
-  | .expr e => e.text
+def Simple.text (p : Char → Bool) : Simple → S
+  | .expr e => e.text p
   | .assign tight ts v =>
       let eq : S := if tight then ['='] else " = ".toList
-      joinWith eq (ts.map Target.text ++ [v.text])
-  | .ret e => "return ".toList ++ e.text
+      joinWith eq (ts.map Target.text ++ [v.text p])
+  | .ret e => "return ".toList ++ e.text p
 
 def Simple.reads : Simple → List S
   | .expr e => e.reads
@@ -134,24 +159,24 @@ inductive L2
 
 def indent (lvl : Nat) : S := List.replicate (2 * lvl) ' '
 
-def L0.render (lvl : Nat) (l : L0) : S := indent lvl ++ joinWith l.sep (l.parts.map Simple.text)
+def L0.render (p : Char → Bool) (lvl : Nat) (l : L0) : S := indent lvl ++ joinWith l.sep (l.parts.map (Simple.text p))
 
-def L1.render (lvl : Nat) : L1 → List S
-  | .line l => [l.render lvl]
+def L1.render (p : Char → Bool) (lvl : Nat) : L1 → List S
+  | .line l => [l.render p lvl]
   | .for_ ts it body =>
-      (indent lvl ++ "for ".toList ++ joinWith ", ".toList ts ++ " in ".toList ++ it.text ++ [':'])
-        :: body.map (L0.render (lvl + 1))
+      (indent lvl ++ "for ".toList ++ joinWith ", ".toList ts ++ " in ".toList ++ it.text p ++ [':'])
+        :: body.map (L0.render p (lvl + 1))
 
-def L2.render (lvl : Nat) : L2 → List S
-  | .s x => x.render lvl
+def L2.render (p : Char → Bool) (lvl : Nat) : L2 → List S
+  | .s x => x.render p lvl
   | .if_ c thn els =>
-      (indent lvl ++ "if ".toList ++ c.text ++ [':']) :: thn.flatMap (L1.render (lvl + 1))
+      (indent lvl ++ "if ".toList ++ c.text p ++ [':']) :: thn.flatMap (L1.render p (lvl + 1))
         ++ (match els with
             | none => []
-            | some e => (indent lvl ++ "else:".toList) :: e.flatMap (L1.render (lvl + 1)))
+            | some e => (indent lvl ++ "else:".toList) :: e.flatMap (L1.render p (lvl + 1)))
 
 /-- the body text (`FunctionBuilder` joins the lines with a newline; the function body sits at level 1) -/
-def renderBody (b : List L2) : S := joinWith ['\n'] (b.flatMap (L2.render 1))
+def renderBody (p : Char → Bool) (b : List L2) : S := joinWith ['\n'] (b.flatMap (L2.render p 1))
 
 /-! ### scoping -/
 
@@ -237,13 +262,6 @@ with a registered path -/
 inductive GKey | null | key (k : S) | path (ps : List PathPart)
   deriving Repr, DecidableEq, Inhabited
 
-inductive COp | eq | ne | lt | le | gt | ge | is_ | isNot | truthy | falsy
-  deriving Repr, DecidableEq, Inhabited
-
-def COp.text : COp → S
-  | .eq => "==".toList | .ne => "!=".toList | .lt => "<".toList | .le => "<=".toList | .gt => ">".toList
-  | .ge => ">=".toList | .is_ => "is".toList | .isNot => "is not".toList | .truthy => "+".toList | .falsy => "!".toList
-
 /-- the comparison value of a `Condition`, as far as the generator looks at it -/
 inductive CVal | none | true_ | false_ | ellipsis | int (i : Int) | str (s : S) | other
   deriving Repr, DecidableEq, Inhabited
@@ -273,8 +291,6 @@ structure GIn where
   extraPaths : Bool := false          -- a path is registered for a field that is not dumped under it
   deriving Repr, DecidableEq, Inhabited
 
-def intRepr (i : Int) : S := if i < 0 then '-' :: dec i.natAbs else dec i.natAbs
-
 def PathPart.repr (printable : Char → Bool) : PathPart → S
   | .str s => pyRepr printable s
   | .int i => intRepr i
@@ -297,9 +313,20 @@ def GCond.inlineText (printable : Char → Bool) (c : GCond) : Option S :=
   | .str s => if c.op.identity then Option.none else some (pyRepr printable s)
   | .other => Option.none
 
+/-- the inlined comparison value as an expression (`Ellipsis` is a builtin *name*, the rest are literals) -/
+def GCond.inlineExpr (c : GCond) : Option Expr :=
+  match c.val with
+  | .none => some (.lit .none)
+  | .true_ => some (.lit .true_)
+  | .false_ => some (.lit .false_)
+  | .ellipsis => some (.name "Ellipsis".toList)
+  | .int i => if c.op.identity then Option.none else some (.lit (.int i))
+  | .str s => if c.op.identity then Option.none else some (.lit (.str s))
+  | .other => Option.none
+
 /-- does `get_skip_if_condition(c, _locals, operand2)` bind `operand2` in the closure? -/
 def GCond.binds (printable : Char → Bool) (c : GCond) : Bool :=
-  !c.op.tOrF && (c.inlineText printable).isNone
+  !c.op.tOrF && c.inlineExpr.isNone
 
 /-- `finalize_skip_if(c, operand1, get_skip_if_condition(c, _locals, operand2))` -/
 def GCond.final (printable : Char → Bool) (c : GCond) (operand1 : Expr) (operand2 : S) : Expr :=
@@ -307,9 +334,9 @@ def GCond.final (printable : Char → Bool) (c : GCond) (operand1 : Expr) (opera
   | .truthy => operand1
   | .falsy => .not_ operand1
   | op =>
-    match c.inlineText printable with
-    | some t => .bin operand1 op.text (if c.val = .ellipsis then .name t else .lit t)     -- `Ellipsis` is a builtin *name*
-    | Option.none => .bin operand1 op.text (.name operand2)
+    match c.inlineExpr with
+    | some e => .bin operand1 (.cmp op) e
+    | Option.none => .bin operand1 (.cmp op) (.name operand2)
 
 def skipName (i : Nat) : S := "_skip_".toList ++ dec i
 def skipIfName (i : Nat) : S := "_skip_if_".toList ++ dec i
@@ -328,10 +355,10 @@ or else `Meta.skip_if` -/
 def fieldCond (printable : Char → Bool) (g : GIn) (i : Nat) (f : GField) : Expr :=
   let sk : Expr := .name (skipName i)
   match f.skipIf with
-  | some c => .not_ (.paren (.bin sk "or".toList (c.final printable (oAttr f.name) (skipIfName i))))
+  | some c => .not_ (.paren (.bin sk .or_ (c.final printable (oAttr f.name) (skipIfName i))))
   | none =>
     match g.skipIf with
-    | some c => .not_ (.paren (.bin sk "or".toList (c.final printable (oAttr f.name) skipValue)))
+    | some c => .not_ (.paren (.bin sk .or_ (c.final printable (oAttr f.name) skipValue)))
     | none => .not_ sk
 
 /-- `result.append((<k>,asdict(<v>,…)))` -/
@@ -345,13 +372,13 @@ def fieldStmt (printable : Char → Bool) (g : GIn) (i : Nat) (f : GField) : Lis
     if f.isCatchAll then
       let sk : Expr := .name (skipName i)
       let c : Expr := if f.hasDefault
-        then .bin (.bin (oAttr f.name) "!=".toList (.name (defaultName i))) "and".toList (.not_ sk)
+        then .bin (.bin (oAttr f.name) (.cmp .ne) (.name (defaultName i))) .and_ (.not_ sk)
         else .not_ sk
       [.if_ c [.for_ ["k".toList, "v".toList] (.call0 (.attr (oAttr f.name) "items".toList))
                 [{ parts := [appendStmt (nm "k") (nm "v")] }]] none]
     else []
   | .key key =>
-    [.if_ (fieldCond printable g i f) [.line { parts := [appendStmt (.lit (pyRepr printable key)) (oAttr f.name)] }] none]
+    [.if_ (fieldCond printable g i f) [.line { parts := [appendStmt (.lit (.str key)) (oAttr f.name)] }] none]
   | .path ps =>
     [.if_ (fieldCond printable g i f)
       [.line { parts := [.assign false [.item "paths".toList (ps.map (PathPart.repr printable))] (asdictOf (oAttr f.name))] }] none]
@@ -367,8 +394,8 @@ def skipDefaultLines (printable : Char → Bool) (g : GIn) : Nat → List GField
     (if f.hasDefault then
       let rhs : Expr := match g.skipDefaultsIf with
         | some c => c.final printable (oAttr f.name) skipDefaultsValue
-        | none => .bin (oAttr f.name) "==".toList (.name (defaultName i))
-      [L1.line { parts := [.assign false [.name (skipName i)] (.bin (.name (skipName i)) "or".toList rhs)] }]
+        | none => .bin (oAttr f.name) (.cmp .eq) (.name (defaultName i))
+      [L1.line { parts := [.assign false [.name (skipName i)] (.bin (.name (skipName i)) .or_ rhs)] }]
     else []) ++ skipDefaultLines printable g (i + 1) r
 
 def skipTargets : Nat → List GField → List Target
@@ -377,7 +404,7 @@ def skipTargets : Nat → List GField → List Target
 
 def excludeAssigns (printable : Char → Bool) : Nat → List GField → List Simple
   | _, [] => []
-  | i, f :: r => .assign true [.name (skipName i)] (.bin (.lit (pyRepr printable f.name)) "in".toList (nm "exclude"))
+  | i, f :: r => .assign true [.name (skipName i)] (.bin (.lit (.str f.name)) .in_ (nm "exclude"))
       :: excludeAssigns printable (i + 1) r
 
 def isPath : GKey → Bool
@@ -397,25 +424,25 @@ def genBody (printable : Char → Bool) (g : GIn) : List L2 :=
   ++ [L2.s (.line { parts := [.assign false [.name "result".toList] .emptyList] })]
   ++ (if g.hasPaths then [L2.s (.line { parts := [.assign false [.name "paths".toList] (.call0 (nm "NestedDict"))] })] else [])
   ++ (if g.fields.isEmpty then [] else
-      [L2.if_ (.bin (nm "exclude") "is".toList (.lit "None".toList))
-          [.line { parts := [.assign true (skipTargets 0 g.fields) (.lit "False".toList)] }]
+      [L2.if_ (.bin (nm "exclude") (.cmp .is_) (.lit .none))
+          [.line { parts := [.assign true (skipTargets 0 g.fields) (.lit .false_)] }]
           (some [.line { parts := excludeAssigns printable 0 g.fields, sep := [';'] }])]
       ++ (match skipDefaultLines printable g 0 g.fields with
           | [] => []
           | ls => [L2.if_ (nm "skip_defaults") ls none])
       ++ fieldStmts printable g 0 g.fields)
   ++ (if g.hasPaths then
-        [L2.s (.line { parts := [.expr (.bin (nm "result") "and".toList (.call1 (.attr (nm "paths") "update".toList) (nm "result"))),
+        [L2.s (.line { parts := [.expr (.bin (nm "result") .and_ (.call1 (.attr (nm "paths") "update".toList) (nm "result"))),
                                  .assign false [.name "result".toList] (nm "paths")] })]
       else [])
   ++ (match g.tagOn with
       | some t =>
         [L2.s (.line { parts := [.assign false [.name "result".toList] (.call1 (nm "dict_factory") (nm "result"))] }),
-         L2.s (.line { parts := [.assign false [.item "result".toList [pyRepr printable g.effTagKey]] (.lit (pyRepr printable t))] }),
+         L2.s (.line { parts := [.assign false [.item "result".toList [pyRepr printable g.effTagKey]] (.lit (.str t))] }),
          L2.s (.line { parts := [.ret (nm "result")] })]
       | none => [L2.s (.line { parts := [.ret (.call1 (nm "dict_factory") (nm "result"))] })])
 
-def genCode (printable : Char → Bool) (g : GIn) : S := renderBody (genBody printable g)
+def genCode (printable : Char → Bool) (g : GIn) : S := renderBody printable (genBody printable g)
 
 /-- `skip_defaults = True if meta.skip_defaults or meta.skip_defaults_if else False` -/
 def GIn.skipDefaultsFlag (g : GIn) : Bool := g.skipDefaults || g.skipDefaultsIf.isSome
